@@ -683,7 +683,18 @@ TCtxNewRat ==
   /\ LET n == IFromStr(Ev.num)  d == FromStr(Ev.den)  qr == DivMod(n.mag, d)
      IN CtxFactory(IF qr[2] = Zero THEN OpSetInt(CtxNew(Ctx), n.neg, qr[1], Ctx.prec) ELSE OpSetRat(CtxNew(Ctx), n.neg, n.mag, d, Ctx.prec))
 (* the conversions behind a factory are those of C15 / C12 on the fresh Decimal c.New() *)
-TCtxNewFloat64 == IsCtx("NewFloat64") /\ SetBinStepZ(CtxNew(Ctx), DecodeF64(FromStr(Ev.bits)), 17, 1, "Ctx.NewFloat64")
+(* NewFloat64(NaN) is the one factory call that "would produce a NaN": no panic, the context records the ErrNaN   *)
+(* (the first one wins), the returned Decimal is valid (the context's precision and mode) and its value undefined *)
+TCtxNewFloat64 ==
+  /\ l <= Len(T) /\ Ev.op = "Ctx.NewFloat64" /\ Ev.out # "panic"
+  /\ LET b == DecodeF64(FromStr(Ev.bits))
+     IN IF b.k = "nan"
+        THEN /\ l' = l + 1 /\ vres' = vres /\ regs' = Adopt /\ dgs' = Ev.dg /\ pool' = pool
+             /\ ctxs' = [ctxs EXCEPT ![Ev.c].err = TRUE]
+             /\ bad' = bad \cup Tag((IF Ev.out = "ok" THEN MisZ(Outcome("ok", CtxNew(Ctx), {"value", "acc"}, {"C19"})) ELSE {<<l, "C19", "nan-not-caught">>})
+                                    \cup Common({Ev.z}), "")
+             /\ cov' = Bump({"Ctx.NewFloat64:nan"})
+        ELSE SetBinStepZ(CtxNew(Ctx), b, 17, 1, "Ctx.NewFloat64")
 TCtxNewFloat == IsCtx("NewFloat") /\ SetBinStepZ(CtxNew(Ctx), BinOfEv, 0, 64, "Ctx.NewFloat")
 TCtxNewString == IsCtx("NewString") /\ ParseStepZ(CtxNew(Ctx), ParseLit(Chars(Ev.s), 0), Ev.ret.ok /\ ~Ev.ret.nilres, FALSE)
 TCtxParseDecimal == IsCtx("ParseDecimal") /\ ParseStepZ(CtxNew(Ctx), ParseLit(Chars(Ev.s), Ev.base), Ev.ret.ok /\ ~Ev.ret.nilres, TRUE)
